@@ -106,6 +106,7 @@ def main():
     obligations, discharged = 0, 0
     samples, viol, undecided, known_lines, notes = [], [], [], [], []
     per_fn, fns, items, assumptions, transforms, unit_summ, ext_auto = [], [], [], [], [], [], []
+    assumed_contracts = []
     for r in results:
         unit_ok = r['status'] != 'undecided' or bool(r['failed'] or r['panic'])
         unit_summ.append(dict(unit=r['unit'], status=r['status'], verified=r.get('verified'), errors=r.get('errors'), passes=r.get('passes'), dropped_hints=r.get('dropped_hints'), lost_hints=r.get('lost_hints'),
@@ -116,6 +117,9 @@ def main():
             notes.append((r['unit'], r['notes']))
         failed_fns = set()
         for cid, c in r['clauses'].items():
+            if c['kind'] == 'assumed':
+                assumed_contracts.append(dict(unit=r['unit'], id=cid, fn=c['fn'], text=c['text']))
+                continue
             if prop not in c['props']:
                 continue
             obligations += 1
@@ -234,6 +238,7 @@ def main():
                             samples=samples,
                             bounded=[],
                             auto_external_body=ext_auto,
+                            assumed_contracts=assumed_contracts,
                             not_covered=not_cov,
                             known_findings=known_lines, known_finding_notes=wit_notes,
                             undecided=[dict(unit=u, notes=[n[:400] for n in ns]) for u, ns in undecided],
@@ -241,7 +246,7 @@ def main():
                                         'plus one body obligation per real function under contract; discharged = those Verus proved on this run. '
                                         'The verified text is extracted mechanically from %s on every run.' % (prop, repo),
                             **extra),
-              assumptions=sorted(set(assumptions)) + ['A-CALLERS: preconditions are proved only at call sites that are themselves under contract',
+              assumptions=sorted(set(assumptions)) + ['assumed contract (callee body not verified in this unit) %s: %s :: %s' % (a['unit'], a['fn'], a['id']) for a in assumed_contracts] + ['A-CALLERS: preconditions are proved only at call sites that are themselves under contract',
                                                       'Verus 0.2026.09.13 / Z3 / rustc 1.98.1 are trusted'],
               wall_s=round(wall, 2), violations=nviol)
     evdir = os.path.join(VERIF, 'evidence') if os.path.realpath(repo) == '/repo' else os.environ.get('VX_SCRATCH_EVIDENCE', '/tmp/vx-scratch-evidence')
